@@ -9,7 +9,7 @@ mvars == <<arts, old, proc, live, imported, draws, nexp>>
 MaxArts == atoi(IOEnv.MC_ARTS)
 MaxExp == atoi(IOEnv.MC_EXPORTS)
 MaxProc == atoi(IOEnv.MC_PROCS)
-UseMenu == IF IOEnv.MC_MENU = "base" THEN {m \in Menu : m.base} ELSE Menu
+UseMenu == IF IOEnv.MC_MENU = "base" THEN {m \in Menu : m.base} ELSE IF IOEnv.MC_MENU = "opts" THEN OptMenu ELSE Menu
 
 KindSeq == <<"SB20", "SB21", "MBI", "OTFAD", "IEE", "IEECTR", "BEE", "HAB", "HABRT", "HEX", "SB21KW">>
 KindNo(k) == CHOOSE i \in DOMAIN KindSeq : KindSeq[i] = k
@@ -17,22 +17,26 @@ FieldNo(k, f) == CHOOSE i \in DOMAIN FieldSeq(k) : FieldSeq(k)[i] = f
 \* what the user supplies for a field: one value per (kind, field), used every time (the worst case for nonce reuse); SB2.0 and SB2.1
 \* (with or without keywrap statements) share
 UserVal(k, f) == (IF k \in {"SB20", "SB21KW"} THEN KindNo("SB21") ELSE KindNo(k)) * 8 + FieldNo(k, f)
+\* a build for two engines with two user keys: the second engine gets another one (no kind with parts has more than 4 fields)
+UserValOf(k, f, o, p) == UserVal(k, f) + (IF p > 1 /\ Len(o) > 1 /\ o[2] = "diff" THEN 4 ELSE 0)
 Step == 8                                                    \* numbers reserved per draw burst (> number of fields of any kind)
-Ideal(k, ex, F, at) == [f \in F |-> IF f \in ex THEN UserVal(k, f) ELSE at + FieldNo(k, f)]
+Ideal(k, ex, o, p, F, at) == [f \in F |-> IF f \in ex THEN UserValOf(k, f, o, p) ELSE at + FieldNo(k, f)]
 
 MInit == Init /\ draws = 100 /\ nexp = 0
 MImport == ~imported /\ \E n \in {0, 3} : Import(n) /\ draws' = draws + n /\ UNCHANGED nexp
-ConstructItem(m) == Construct(m.kind, m.how, ToSet(m.ex), Ideal(m.kind, ToSet(m.ex), Fields(m.kind) \ Late(m.kind), draws), {})
-                    /\ draws' = draws + Step /\ UNCHANGED nexp
-MConstruct == Len(arts) < MaxArts /\ \E m \in UseMenu : ConstructItem(m)
+\* part p of the build of menu item m (the ideal generator draws for every part of a build)
+ConstructItem(m, p) == Construct(m.kind, m.how, ToSet(m.ex), m.opt, p, Ideal(m.kind, ToSet(m.ex), m.opt, p, Fields(m.kind) \ Late(m.kind), draws), {})
+                       /\ draws' = draws + Step /\ UNCHANGED nexp
+\* a build that has begun is completed (Open > 0: the next part, whatever the bound); a new build only below the bound
+MConstruct == imported /\ \E m \in UseMenu : \E p \in 1..MaxParts : (p > 1 \/ Len(arts) < MaxArts) /\ ConstructItem(m, p)
 \* the object of a live artefact is configured again: any load_from_config item of its kind, whatever the object was built with before
 ReconfItems(o) == IF Art(o).kind \in Reconf THEN {m \in UseMenu : m.kind = Art(o).kind /\ m.how = "config"} ELSE {}
-ReconfigureItem(o, m) == Reconfigure(o, ToSet(m.ex), Ideal(m.kind, ToSet(m.ex), Fields(m.kind) \ Late(m.kind), draws), {})
+ReconfigureItem(o, m) == Reconfigure(o, ToSet(m.ex), Ideal(m.kind, ToSet(m.ex), m.opt, 1, Fields(m.kind) \ Late(m.kind), draws), {})
                          /\ draws' = draws + Step /\ UNCHANGED nexp
 MReconfigure == Len(arts) < MaxArts /\ \E o \in live : \E m \in ReconfItems(o) : ReconfigureItem(o, m)
 \* an export keeps the values of construction time and draws the late fields anew
 ExportVals(a) == [f \in Fields(Art(a).kind) |-> IF f \in Late(Art(a).kind) THEN draws + FieldNo(Art(a).kind, f) ELSE Art(a).val[f]]
-ExportArt(a) == Export(a, ExportVals(a), {}, {}) /\ draws' = draws + Step /\ nexp' = nexp + 1
+ExportArt(a) == Export(a, ExportVals(a), {}, Seen(Art(a).kind, Art(a).how, Art(a).opt, Art(a).part), {}) /\ draws' = draws + Step /\ nexp' = nexp + 1
 MExport == nexp < MaxExp /\ \E a \in live : ExportArt(a)
 MRestart == proc < MaxProc /\ imported /\ Restart /\ UNCHANGED <<draws, nexp>>
 MNext == MImport \/ MConstruct \/ MReconfigure \/ MExport \/ MRestart
